@@ -122,6 +122,15 @@ def run(ctx):
         cfgt = ("indent_with_tabs=%d\n" % (k % 3)) + (cfggen.random_ws_config(ctx.rng, unc) if k % 4 else "")
         jobs.append(("gen|%d|%s" % (k, lang), src, None, cfgt, lang))
     jobs += hazard.jobs(unc, ctx.rng, quick, ctx.work.sub("dense"))
+    # every literal shape on its own (a refusal of one must not hide the others) under the three spacing extremes
+    ldir = ctx.work.sub("lits")
+    spx = [("default", ""), ("sp_remove", cfggen.all_iarf(unc, "sp_", "remove")), ("sp_force", cfggen.all_iarf(unc, "sp_", "force"))]
+    for lang, pool in (("C", LITERALS), ("CPP", LITERALS + CPP_LITERALS)):
+        for li, lit in enumerate(pool):
+            src = os.path.join(ldir, "lit%d%s" % (li, EXT[lang]))
+            obs.write(src, ("const char *v = %s;\nint   after  =  1 ;\nvoid f(void) { g(%s , 2); }\n" % (lit, lit)).encode("utf-8"))
+            for cn, ct in spx:
+                jobs.append(("lit|%s|%d|%s" % (lang, li, cn), src, None, ct, lang))
     res = c02.observe_jobs(ctx, jobs)
     events = []
     for evs, info, j in res:
